@@ -295,6 +295,8 @@ def run_case(job):
                     gz_path = path
                 got = _call(lambda: _project_coll(load(path, moltype=mtname, **lkw) if explicit is None else load(path, moltype=mtname, format=explicit, **lkw)))
                 d = diff_kind(got, exp, allowed)
+                if not d and (isinstance(got, Exception) or got != exp):
+                    stats["open_outcome_alternative"] = stats.get("open_outcome_alternative", 0) + 1
             stats["loads"] += 1
             if d:
                 what = f"write+load {kind} {fmt}{cmp or ' plain'}"
@@ -343,6 +345,8 @@ def run_case(job):
             got = _call(thunk)
             stats["parses"] += 1
             d = diff_kind(got, exp, allowed)
+            if not d and (isinstance(got, Exception) or got != exp):
+                stats["open_outcome_alternative"] = stats.get("open_outcome_alternative", 0) + 1
             if d:
                 out.append(("fail", f"{fmt}:parse:{group}:{cls}:{d}", f"{vname}", {**base, "parser": vname, "text": text, "observed": _show(got)}))
             m = model.get(mv)
@@ -356,6 +360,16 @@ def run_case(job):
                 agrees = isinstance(got, Exception) if pred is None else (not isinstance(got, Exception) and got == pred)
                 if not agrees:
                     out.append(("drift", f"{vname} differs from its transcription {mv}", {**base, "observed": _show(got), "model": m}))
+    # load_seq returns ONE sequence of the file: the first record
+    if fmt != "json" and plain_path is not None and text is not None:
+        def first_seq():
+            sq = cogent3.load_seq(plain_path, moltype=mtname)
+            return [(sq.name, str(sq))]
+        got = _call(first_seq)
+        stats["loads"] += 1
+        d = diff_kind(got, exp[:1], [a if a is None else a[:1] for a in allowed])
+        if d:
+            out.append(("fail", f"{fmt}:roundtrip:{cls}:{d}", "write + load_seq (first record of the file)", {**base, "kind": "load_seq", "observed": _show(got), "step": "load"}))
     if tier == "thorough" and fmt != "json" and plain_path is not None and text is not None:
         for appname in ("load_aligned", "load_unaligned"):
             if c["ragged"] and appname == "load_aligned":
